@@ -8,7 +8,7 @@ import math
 import numpy as np
 
 from ..core import Streams, Violation, import_pyprism
-from .base import BaseWorld, lib, must_raise
+from .base import BaseWorld, lib, must_raise, wrap_keys, KEY_CONTAINERS
 from .c14 import NAMESETS, gen_keys
 
 TOL = 1e-12
@@ -65,7 +65,7 @@ class World(BaseWorld):
                     keys = ro.choice([types[0], types[-1]])      # hammer first/last type: staleness of rows/columns
                 else:
                     keys = gen_keys(ro, types)
-                ops.append({'op': k, 'k': keys, 'val': gen_val(ro)})
+                ops.append({'op': k, 'k': keys, 'val': gen_val(ro), 'kc': ro.choice(KEY_CONTAINERS) if isinstance(keys, list) else 'list'})
             else:
                 ops.append({'op': k})
         return {'config': {'types': types}, 'ops': ops}
@@ -122,9 +122,10 @@ class World(BaseWorld):
                 val = mat(op['val'])
                 keys = op['k'] if isinstance(op['k'], list) else [op['k']]
                 tbl, mdl = (D, dens) if name == 'dens' else (S, diam)
-                lib(name + '.setitem', tbl.__setitem__, op['k'], val)
+                lib(name + '.setitem', tbl.__setitem__, wrap_keys(op['k'], op.get('kc')), val)
                 if isinstance(op['k'], list):
                     ctx.probe('list_assignment')
+                    ctx.probe('keys_as_' + (op.get('kc') or 'list'))
                 for t in keys:
                     if t in mdl and len(mdl) > 1:
                         ctx.probe('reassign_after_others')
